@@ -324,8 +324,8 @@ impl Check for C14 {
     }
     fn cases(&self, tier: Tier) -> u64 {
         match tier {
-            Tier::Quick => 60_000,
-            Tier::Thorough => 2_500_000,
+            Tier::Quick => 600_000,
+            Tier::Thorough => 25_000_000,
         }
     }
     /// Direct cases: program text; expected verdict in the first line comment `// accept` or `// reject`.
